@@ -96,6 +96,9 @@ func (s *JavaRefactorListener) EnterClassOrInterfaceType(ctx *ClassOrInterfaceTy
 }
 
 func (s *JavaRefactorListener) EnterAnnotation(ctx *AnnotationContext) {
+	if ctx.QualifiedName() == nil {
+		return
+	}
 	annotation := ctx.QualifiedName().GetText()
 
 	startLine := ctx.GetStart().GetLine()
@@ -119,6 +122,10 @@ func (s *JavaRefactorListener) EnterLambdaParameters(ctx *LambdaParametersContex
 }
 
 func (s *JavaRefactorListener) EnterMethodCall(ctx *MethodCallContext) {
+	// this(...) and super(...) are method calls without an identifier
+	if ctx.Identifier() == nil {
+		return
+	}
 	text := ctx.Identifier().GetText()
 	startLine := ctx.GetStart().GetLine()
 	stopLine := ctx.GetStop().GetLine()
